@@ -38,8 +38,8 @@ def closed_outline(sampled, kinds):
     return geo.pdist(prev, sampled[0][0]) <= tolc
 
 
-def rand_shape(rng):
-    k = rng.choice(["rect", "rrect", "circle", "ellipse", "line", "polyline", "polygon"])
+def rand_shape(rng, k=None):
+    k = k or rng.choice(["rect", "rrect", "circle", "ellipse", "line", "polyline", "polygon"])
     c = lambda: round(rng.uniform(-200, 200), 2)
     sz = lambda: round(rng.uniform(0.5, 300), 2)
     if k == "rect":
@@ -86,7 +86,28 @@ class C02(Prop):
         "cos/sin/atan2/tan/sqrt of libm; IEEE rounding (tolerance 1e-9 relative, arcs 1e-7)",
     ]
 
+    def _near_identity(self, rng):
+        """matrices that differ from the identity in exactly one entry (a pure skewX, skewY, scaleX, scaleY, translateX,
+        translateY): the classes the shortcuts for 'nothing to do' (is_identity and friends) must not swallow"""
+        for idx in range(6):
+            for val in ((0.5, -1.0) if idx in (0, 3) else (0.75, -2.0)):
+                M = [1.0, 0.0, 0.0, 1.0, 0.0, 0.0]
+                M[idx] = val
+                yield M
+
     def cases(self, rng, tier):
+        for M in self._near_identity(rng):
+            segs = []
+            cur = geo.pt(rng, 100)
+            for _ in range(3):
+                d = geo.rand_seg(rng, start=cur, local=30.0)
+                segs.append(d)
+                cur = d["p"][-1]
+            yield {"k": "path", "start": segs[0]["p"][0], "segs": segs, "M": M, "route": "ctor", "close": True, "submove": False,
+                   "nostart": False}
+            for k in ("rect", "rrect", "circle", "ellipse", "line", "polyline", "polygon"):
+                yield {"k": "shape", "shape": rand_shape(rng, k), "M": M, "pre": None}
+            yield {"k": "seg", "seg": geo.rand_seg(rng), "M": M, "B": gen.matrix_invertible(rng)}
         n = 1500 if tier == "quick" else 90000
         for i in range(n):
             d = geo.rand_seg(rng)
